@@ -72,6 +72,10 @@ func c18jobOf(e error) int {
 func c18run(c *c18Case, via string) c18Obs {
 	sameText := strings.HasSuffix(via, "/same-text-errors")
 	via = strings.TrimSuffix(via, "/same-text-errors")
+	// failing jobs that are themselves a group of jobs (a nested JobGroup whose leaves all fail): the job's error is
+	// an ErrorSlice of several leaf errors, and it is still the error of ONE job
+	nested := strings.HasSuffix(via, "/nested-groups")
+	via = strings.TrimSuffix(via, "/nested-groups")
 	defer func() {}()
 	o := c18Obs{Via: via, N: c.N, Limit: c.Limit, Outcome: c.Outcome, Order: c.Order, Expect: c.Expect, ErrJobs: []int{}, NotStarted: []int{}}
 	started := make([]chan struct{}, c.N+1)
@@ -99,6 +103,14 @@ func c18run(c *c18Case, via string) c18Obs {
 			}
 			if sameText {
 				return 0, &c18SameTextErr{job: j}
+			}
+			if nested {
+				inner := NewJobGroup[int]()
+				for leaf := 0; leaf < 1+(j+c.N)%3; leaf++ {
+					inner.Add(func(context.Context) (int, error) { return 0, fmt.Errorf("job %d failed", j) })
+				}
+				_, ierr := inner.RunWithConcurrency(ctx, -1)
+				return 0, ierr
 			}
 			if (c.N+j+len(c.Order))%4 == 0 {
 				// a job that hit a deadline of its own (e.g. the HTTP client's): its error wraps a context error although the
@@ -207,9 +219,15 @@ func TestVerifC18(t *testing.T) {
 		if i%4 == 1 {
 			via += "/same-text-errors" // failing jobs return distinct error values with one and the same text
 		}
+		if i%4 == 3 {
+			via += "/nested-groups"
+		}
 		o := c18run(&c, via)
 		if i%4 == 1 {
 			o.Via += "/same-text-errors"
+		}
+		if i%4 == 3 {
+			o.Via += "/nested-groups"
 		}
 		o.Case = i + 1
 		out.Emit(o)
